@@ -648,6 +648,10 @@ class ContextCpu(XContext):
         state = self.__dict__.copy()
         # compiled kernels cannot be pickled: the copy starts without them
         state["_kernels"] = type(self._kernels)()
+        # nor can the OpenMP functions of the last compiled module (the next
+        # build sets them again)
+        state.pop("omp_set_num_threads", None)
+        state.pop("omp_get_max_threads", None)
         del state["_buffers"]
         return state
 
